@@ -763,15 +763,12 @@ func datasetsV(thorough bool) []Dataset {
 }
 
 // requestsV is the request family of a family-V dataset: ranges over the cut points MinInt64, one cut inside every
-// group, MaxInt64 (thorough: + the boundary between groups 0 and 1) × value predicates: the value comparison alone,
+// group, MaxInt64 × value predicates: the value comparison alone,
 // tag OR value, tag AND value (both operand orders), two nested shapes; thorough: every tag atom × every value atom.
 func requestsV(thorough bool, groups int) []Req {
 	cutSet := map[int64]bool{math.MinInt64: true, math.MaxInt64: true}
 	for g := 0; g < groups; g++ {
 		cutSet[slotC(2*g)+1] = true
-	}
-	if thorough {
-		cutSet[slotC(2)] = true
 	}
 	var c []int64
 	for x := range cutSet {
@@ -793,11 +790,8 @@ func requestsV(thorough bool, groups int) []Req {
 			vcmpInt("veq", 110), vcmpInt("vgt", vThreshold)}
 		fp = append(fp, vals[2:]...)
 		for _, a := range atoms {
-			for i, v := range vals {
+			for _, v := range vals {
 				fp = append(fp, or(a, v), and(a, v))
-				if i < 2 {
-					fp = append(fp, or(v, a), and(v, a))
-				}
 			}
 		}
 	}
@@ -815,10 +809,11 @@ func requestsV(thorough bool, groups int) []Req {
 		mode string
 		keys []string
 	}
-	gks := []gk{{"by", []string{"a"}}, {"by", []string{"_measurement", "_field"}}, {"none", []string{}}}
-	aggs := []string{"", "count", "sum", "min", "last"}
+	gks := []gk{{"by", []string{"a"}}, {"none", []string{}}}
+	aggs := []string{"", "count", "sum", "last"}
 	gp := []*P{va, or(eq("a", "y"), vb), and(eq("b", "z"), va)}
 	if thorough {
+		gks = append(gks, gk{"by", []string{"_measurement", "_field"}})
 		aggs = allAggs
 		gp = append(gp, vb, or(eq("b", "z"), va), or(eq("_field", "f0"), vb), and(eq("a", "x"), vb))
 	}
@@ -1118,21 +1113,6 @@ func comparePointsV(got, inr, must, allowed []mini.Pt) (string, bool) {
 	return "", true
 }
 
-// droppedWhere (value predicates, signature feature): "later-shard" if every accepted point missing from got lies in a
-// shard group after the first group in which the series has a point in range, else "first-shard".
-func droppedWhere(got, inr, must []mini.Pt) string {
-	gt := map[int64]bool{}
-	for _, p := range got {
-		gt[p.T] = true
-	}
-	for _, p := range must {
-		if !gt[p.T] && groupOf(p.T) == groupOf(inr[0].T) {
-			return "first-shard"
-		}
-	}
-	return "later-shard"
-}
-
 // matchedBy (value predicates, signature feature): "tags" if the series satisfies the predicate whatever the value of a
 // point is (its tag part alone decides), else "value".
 func matchedBy(p *P, tags map[string]string) string {
@@ -1325,9 +1305,6 @@ func checkSeries(list []mini.Series, md *model, r Req) (probs []problem, nonEmpt
 			by = "series-matches-by=" + matchedBy(r.Pred, tags)
 			if r.Agg == "" {
 				if cl, ok := comparePointsV(s.Points, inr, must, allowed); !ok {
-					if cl == "dropped-points" {
-						by += ",dropped-in=" + droppedWhere(s.Points, inr, must)
-					}
 					probs = append(probs, problem{cl, fmt.Sprintf("series %s: got %s; stored in range %s, of which %s satisfy %s", key, fmtPts(s.Points), fmtPts(inr), fmtPts(must), r.Pred), by})
 				}
 				continue
@@ -1739,7 +1716,7 @@ func TestCheck(t *testing.T) {
 			"'mirror' = every pair (a,b) of group subsets, not both empty: the two-field series m0{a=x}, m1{b=w} present in a, the one-field series m0{a=y,b=z}, m1{a=x,b=z} present in b ((2^G)^2-1 vectors), plus, where a∪b leaves a group unwritten before a written one, m0 with (a,b) and m1{a=x,b=z} alone in every group (24 / 135 vectors for G = 3 / 4); 'wide' = mirror ∪ every vector of four subsets in which m0{a=y,b=z} or m1{b=w} is absent everywhere. quick: mirror over 3 groups, layout mixed = 87 datasets; thorough: wide over 3 groups, layout mixed (1008) + mirror over 3 groups × layouts cache,tsm2,overwrite (261) + mirror over 4 groups, layout mixed (390) = 1659 datasets. " +
 			"Requests per family-C dataset: cut points MinInt64, one cut inside every group (first slot+1, i.e. between the two points of the group), MaxInt64 (thorough: + every group boundary + the last nanosecond of every group); ReadFilter for every range [s,e) over the cuts (quick 10; thorough 45 / 78 for 3 / 4 groups) × predicates {none, a=x, _field=f0, a!=x} (thorough + _field=f1); ReadGroup for group-by [a], group-by [_measurement,_field], group none (thorough + group-by []) × all 8 aggregate settings × ranges {full, inside first group → inside last group, inside first group → MaxInt64} (thorough + 2) × predicate none (thorough: + a=x without aggregate). quick = 112 requests per C dataset, thorough = 405 / 570 (3 / 4 groups). The read API has no order parameter: all reads iterate the shards in ascending time order, except ReadGroup with aggregate last, which the store serves with descending cursors (shards in reverse order; the skipped-shard patterns are thereby also met from the other side). " +
 			"Family V (field values): 3 shard groups, slot geometry and field layout of family C; every point is low (s*10+k, +0.5 for the float field: 0…37.5) or high (+100); a dataset = presence vector × value mask over the 6 slots (bit k: slot k is high for the even pool series and low for the odd ones) — ALL 64 masks, so `_value > 80` / `_value < 80` holds for none/some/all points of each shard independently; quick: every series in every group, layout mixed = 64 datasets; thorough: presence {full, staggered (m0{a=x}: groups 0,1; m0{a=y,b=z}: 1,2; m1{a=x,b=z}: 0,1,2; m1{b=w}: 0,2)} × layouts mixed, overwrite (old value of the opposite class) + full × cache, tsm2 = 384 datasets. " +
-			"Requests per V dataset: ReadFilter for every range over the cuts MinInt64, inside each group, MaxInt64 (10; thorough + boundary of groups 0/1 = 15) × value predicates (quick 13: _value>80, _value<80, tag OR value ×6 incl. swapped operands and _field/_measurement atoms, tag AND value ×3, (a=x AND v) OR b=w, (a=y OR v) AND _measurement=m0; thorough 199: every atom of {a=x,a=y,b=z,b=w,_measurement=m0/m1,_field=f0/f1,a!=x} AND/OR every value atom of {>80,<80,>=80,<=80,=100.5,!=100.5,=110 (integer literal),>80 (integer literal)}, swapped operand order for >80/<80); ReadGroup group-by [a], [_measurement,_field], group none × aggregates {none,count,sum,min,last} (thorough all 8) × 2 ranges × 3 (thorough 7) value predicates. Reference: a point is returned iff the predicate evaluated over (tags of its series, its own value) is true; aggregates over exactly those points. " +
+			"Requests per V dataset: ReadFilter for every range over the cuts MinInt64, inside each group, MaxInt64 (10) × value predicates (quick 13: _value>80, _value<80, tag OR value ×6 incl. swapped operands and _field/_measurement atoms, tag AND value ×3, (a=x AND v) OR b=w, (a=y OR v) AND _measurement=m0; thorough 163: every atom of {a=x,a=y,b=z,b=w,_measurement=m0/m1,_field=f0/f1,a!=x} AND/OR every value atom of {>80,<80,>=80,<=80,=100.5,!=100.5,=110 (integer literal),>80 (integer literal)}); ReadGroup group-by [a], group none (thorough + [_measurement,_field]) × aggregates {none,count,sum,last} (thorough all 8) × 2 ranges × 3 (thorough 7) value predicates. Reference: a point is returned iff the predicate evaluated over (tags of its series, its own value) is true; aggregates over exactly those points. " +
 			"Visiting order: family A, then families B, C and V in alternating blocks of 16 datasets, each family simplest-first. " +
 			"Oracle: reference model of the written points (see file header). non-trivial = requests for which the model expects ≥1 series with points (distinct by construction).",
 		Assumptions: []string{
